@@ -38,7 +38,8 @@ def run(ctx, ss):
 def known_models(ss) -> tuple:
     tree = ss.tree(ENUMS)
     for st in tree.body:
-        if isinstance(st, ast.Assign) and any(isinstance(t, ast.Name) and t.id == "known_decay_models" for t in st.targets):
+        if (isinstance(st, ast.Assign) and any(isinstance(t, ast.Name) and t.id == "known_decay_models" for t in st.targets)) or \
+                (isinstance(st, ast.AnnAssign) and isinstance(st.target, ast.Name) and st.target.id == "known_decay_models" and st.value is not None):
             try:
                 v = ast.literal_eval(st.value)
             except Exception as e:
@@ -78,6 +79,14 @@ def seq_parts(e: ast.AST) -> tuple[set[str], list[str]]:
             go(x.left)
             go(x.right)
             return
+        if isinstance(x, ast.IfExp):
+            # `() if X is None else X` (either arm order): X, or nothing when there is no X yet
+            arms = [(x.body, x.orelse), (x.orelse, x.body)]
+            for empty_arm, other in arms:
+                if isinstance(empty_arm, (ast.Tuple, ast.List)) and not empty_arm.elts:
+                    atoms_ = guards.canon_cond(x.test, True)
+                    if len(atoms_) == 1 and txt(atoms_[0][0]) in (f"{txt(other)} is None", txt(other)):
+                        return go(other)
         if isinstance(x, ast.BoolOp) and isinstance(x.op, ast.Or) and len(x.values) == 2 and isinstance(x.values[1], (ast.Tuple, ast.List)) \
                 and not x.values[1].elts:
             return go(x.values[0])          # `X or ()`
@@ -404,7 +413,7 @@ def c06_7(ctx, ss):
         raise AnchorMissing("load_additional_decay_models stores nothing")
     seen_first, seen_more = [], []
     for s in stores:
-        atoms, problems = seq_parts(s.value)
+        atoms, problems = seq_parts(flow.expand(s.value))          # (expanded: the earlier names may be read into a local first)
         conds = [c for c in guards.path_conditions(ff.node, s) if c[0] == "if"]
         def none_pol(e, pol):
             """polarity under which `e` says 'nothing registered yet' (None when e is not such a test)"""
